@@ -18,6 +18,19 @@ import (
 
 var defaultPortNum = map[string]int{"ftp": 21, "http": 80, "https": 443, "ws": 80, "wss": 443}
 
+// derivedAgreeDerivedFirst reads the derived accessors before anything else (after a history during
+// which nothing was read), then checks them as usual; what they said first must be what they say then.
+func derivedAgreeDerivedFirst(u *url.Url) string {
+	v6, v4, dp := u.IsIPv6(), u.IsIPv4(), u.DecodedPort()
+	if msg := derivedAgree(u); msg != "" {
+		return msg
+	}
+	if u.IsIPv6() != v6 || u.IsIPv4() != v4 || u.DecodedPort() != dp {
+		return fmt.Sprintf("read before any other getter IsIPv6/IsIPv4/DecodedPort were %v/%v/%d, after the other getters they are %v/%v/%d (Href %q)", v6, v4, dp, u.IsIPv6(), u.IsIPv4(), u.DecodedPort(), u.Href(false))
+	}
+	return ""
+}
+
 func derivedAgree(u *url.Url) string {
 	href := u.Href(false)
 	hostname, port, proto := u.Hostname(), u.Port(), u.Protocol()
@@ -110,6 +123,31 @@ func Check19(c CaseHist, r *core.Rec) {
 			}
 		}
 	}
+	if c.Blind {
+		// nothing is read between the steps: flags and the decoded port that are maintained by the
+		// steps themselves (not recomputed by a getter) must be right without anyone having looked
+		for _, op := range c.Ops {
+			switch op.Kind {
+			case "set":
+				ApplySetter(iu, op.Setter, string(op.Value))
+			case "resolve":
+				if v, err := iu.Parse(string(op.Value)); err == nil && v != nil {
+					iu = v
+				}
+			case "clone":
+				iu = iu.Clone()
+			}
+		}
+		r.Class("blind-history")
+		if len(c.Ops) >= 2 {
+			r.NT()
+		}
+		// DecodedPort and the flags first: they are what a step may have left stale
+		if msg := derivedAgreeDerivedFirst(iu); msg != "" {
+			r.Failf("after %s: %s", histString(c, len(c.Ops)-1), msg)
+		}
+		return
+	}
 	for i, op := range c.Ops {
 		k0, p0, s0 := addrKind(iu), iu.Port(), iu.Protocol()
 		switch op.Kind {
@@ -152,7 +190,7 @@ var c19Refs = []string{"/x", "x", "?q", "#f", "", "//1.2.3.4/", "//[::1]/", "//h
 
 func Gen19(t *rapid.T) CaseHist {
 	if rapid.IntRange(0, 2).Draw(t, "mode") == 0 {
-		return genHistory(t, histOpts{maxOps: 10, start: "pair", resolve: true, clone: true})
+		return genHistory(t, histOpts{maxOps: 10, start: "pair", resolve: true, clone: true, blind: true})
 	}
 	// biased: address-kind alternation and port / scheme changes
 	c := CaseHist{Input: B(gen.Pick(t, "start", c19Starts))}
@@ -178,13 +216,16 @@ func Gen19(t *rapid.T) CaseHist {
 			c.Ops = append(c.Ops, Op{Kind: "set", Setter: w, Value: B(gen.SetterValue(t, "value", w))})
 		}
 	}
+	if rapid.IntRange(0, 3).Draw(t, "blind") == 0 {
+		c.Blind = true
+	}
 	return c
 }
 
 var P19 = core.Register(core.Prop[CaseHist]{
 	ID: "C19",
 	Rule: "a start URL followed by 0..10 steps (nine setters, resolution against the current URL, Clone-and-continue-on-the-clone); one third general histories as in C04, two thirds biased to alternating IPv4 / IPv6 / domain hosts, ports 0 / default / empty and scheme changes; " +
-		"oracle: after every step IsIPv6, IsIPv4, DecodedPort, Scheme/Protocol, Query/Search, Fragment/Hash, OpaquePath and IsSpecialScheme are recomputed from Hostname, Port, Protocol and Href; " +
+		"oracle: after every step (a quarter of the histories: after the last step only, nothing having been read from the URL in between, and the derived accessors read first) IsIPv6, IsIPv4, DecodedPort, Scheme/Protocol, Query/Search, Fragment/Hash, OpaquePath and IsSpecialScheme are recomputed from Hostname, Port, Protocol and Href; " +
 		"non-trivial = some step changed the host between address kinds (none / name / v4 / v6) or changed Port or the scheme; distinct by hash of the history",
 	Gen:   Gen19,
 	Check: Check19,
